@@ -1294,7 +1294,8 @@ void resolveFill(const Options& o, Op& op) {
     // the limit is out of reach and a token amount is used instead
     size_t limit = size_t(verif::Inspector::NULLSLOT);
     size_t per = op.str("kind") == "big" ? 2 : 1;
-    size_t n = limit > 70000 ? 600 : limit / per + size_t(op.num("extra"));
+    // (4-byte ids: 2300 slots are enough to move the pool table to the heap and grow it there twice)
+    size_t n = limit > 70000 ? 2300 / per : limit / per + size_t(op.num("extra"));
     op.setu("n", n);
   }
 }
